@@ -52,6 +52,9 @@ def euclid_checks(ctx: Ctx, which=("utils", "secp")):
                   env={"NMAX": nmax}, name="MC_Euclid", timeout=1800)
     for v in res.violations:
         ctx.violation(f"MC_Euclid:{v['name']}", f"Euclid.tla: {v['name']} fails", {"trace": v["trace"][-2:]})
+    # unbounded: the invariant is established, preserved by a step with any quotient, the remainder decreases and
+    # the result is an inverse - for all integers (TLAPS; supplementary, reported)
+    ctx.tlaps("EuclidProof")
     from py_ecc import utils
     from py_ecc.secp256k1 import secp256k1 as s
     fns = []
